@@ -2,6 +2,7 @@
    tofile <dest> <exists 0/1> <label ~|hex> <chunks> <fail ~|k>                                   -> trace
    proc <overwrite 0/1> <fname> <incs ~|hex,..> <loads 0/1> <out_exists 0/1> <chunks> <fail>     -> <out name hex> <trace>
    build <out> <exists 0/1> <sources ~|hex,..> <writes 0/1> <chunks> <fail>                      -> trace
+   many <overwrite 0/1> <fname/incs/loads/out_exists/chunks|...> <fail>                          -> trace
    trace syntax: T<h> R<hex> W<hex>:<h> w<h>:<n> r<h> s<h> c<h> X<hex> M<hex>:<hex> E !  joined by ','  (~ = empty) *)
 let str_op o =
   match o with
@@ -30,5 +31,13 @@ let handle fields =
     str_trace (process_one_trace_now (ow = "1") fn (hexlist incs) (loads = "1") (oex = "1") (ints_of_str chunks) (fail f))
   | ["build"; out; ex; srcs; writes; chunks; f] ->
     str_trace (build_trace_now (bytes_of_hex out) (ex = "1") (hexlist srcs) (writes = "1") (ints_of_str chunks) (fail f))
+  | ["many"; ow; files; f] ->
+    (* files: fname/incs/loads/out_exists/chunks joined by '|' *)
+    let parse t = (match String.split_on_char '/' t with
+      | [fn; incs; loads; oex; chunks] ->
+        { ci_fname = bytes_of_hex fn; ci_incs = hexlist incs; ci_loads = (loads = "1"); ci_out_exists = (oex = "1");
+          ci_chunks = ints_of_str chunks }
+      | _ -> failwith "bad file entry") in
+    str_trace (process_many_trace_now (ow = "1") (List.map parse (String.split_on_char '|' files)) (fail f))
   | _ -> failwith "bad request"
 let () = main_loop handle
